@@ -76,6 +76,19 @@ inductive Cmd where
   | rollback                   -- `await tx.rollback()`
   deriving DecidableEq, Repr
 
+/-- `cache.set_many({k1: v1, k2: v2, …})` inside a transaction, as body commands.
+`LockTransactionBackend.set_many`: `for key in pairs: await self._lock_updates(key)` — the locks are taken key by key, in the
+order of the mapping, each through `_get_lock_key` (so in serializable mode it is the ONE global lock) —, then
+`TransactionBackend.set_many`: `_to_delete.difference_update(pairs.keys()); _local_cache.set_many(pairs)` buffers every pair in
+that order, with no suspension point in between.  The buffer is task-local and nothing can happen between the last lock and the
+buffering, so the command is the sequence `set k1 v1; set k2 v2; …` of single-key writes: the same `set_lock` attempts in the
+same order, the same buffer afterwards, and an interruption in the middle (LockedError, cancellation) drops the buffer either way. -/
+def Cmd.setMany (kvs : List (Nat × Int)) : List Cmd := kvs.map fun p => .set p.1 p.2
+
+/-- `cache.delete_many(k1, k2, …)` inside a transaction: `for key in keys: await self._lock_updates(key)`, then
+`_local_cache.delete_many(*keys); _to_delete.update(keys)` — the sequence `delete k1; delete k2; …` -/
+def Cmd.deleteMany (ks : List Nat) : List Cmd := ks.map .delete
+
 /-- what the caller of the block gets — all the ways a block can end -/
 inductive Outcome where
   | returned (rs : List (Option Int))   -- the body's results (of its `incr`s and `get`s, in order)
